@@ -116,7 +116,7 @@ func checkMain(args []string) int {
 	kfOpen := map[string]knownFinding{}
 	var kfOpenIDs []string
 	for _, k := range kfs {
-		if k.Property == *prop && k.Status == "open" {
+		if k.Status == "open" { // a harness shared between properties may hit another property's finding
 			kfOpen[k.ID] = k
 			kfOpenIDs = append(kfOpenIDs, k.ID)
 		}
